@@ -216,7 +216,15 @@ func c04Weights(c *ctx) {
 			}
 			slots[j]++
 		}
-		tol := float64(k+1) / float64(10000-min(k, 9000))
+		// resolution of 10,000 slots: every share is right to within one slot; targets too small for a slot of their own get
+		// one all the same (never starved), which may lengthen the ring by that many slots
+		bumped := 0
+		for j := range eff {
+			if eff[j] > 0 && eff[j]*10000 < 1 {
+				bumped++
+			}
+		}
+		tol := (1.5 + float64(bumped)) / 10000
 		for j := range slots {
 			w := eff[j]
 			real := r0.Targets[j].Weight
